@@ -83,6 +83,14 @@ def build_thm(prop):
     except Exception as e:      # the translator itself failed on the current source: the obligations cannot be re-checked
         return False, 'lib/srcfacts.py could not read the current source: %r' % (e,)
     rc, out = sh(['lake', 'build', 'Pocket.Thm.' + prop], cwd=LEAN)
+    if rc != 0:
+        # lead with the errors (the log is mostly linter warnings of modules that did build)
+        ls = out.split('\n')
+        keep = []
+        for i, l in enumerate(ls):
+            if l.startswith('error') or ' error: ' in l or ' error(' in l:
+                keep += ls[i:i + 12] + ['...']
+        out = '\n'.join(keep[:120]) + '\n--- end of errors; tail of the full log:\n' + out[-1500:]
     return rc == 0, out
 
 
@@ -342,7 +350,7 @@ class Check:
             self.lean_log = log[-3000:]
             unt = SRC_REPORT.get('untranslatable', [])
             self.violation('proof', 'lake build Pocket.Thm.%s failed%s' % (self.prop, (' (source no longer translatable: %s)' % '; '.join(unt)[:300]) if unt else ''),
-                           ['# theorem module does not build', log[-3000:]], found=False)
+                           ['# theorem module does not build', log[:6000]], found=False)
             return
         res, out = audit(self.prop, names)
         self.thm_status = res
